@@ -3,6 +3,7 @@ package vsched
 import (
 	"fmt"
 	"sort"
+	"time"
 
 	"golang.org/x/net/internal/zzverif/vx"
 )
@@ -19,6 +20,29 @@ type SchedCase struct {
 // executions, states = scheduling points visited, transitions = steps,
 // traces = complete executions of the instrumented implementation.
 func RunAll(c *vx.Ctx, part string, progs []Program, bound int) {
+	RunBounds(c, part, progs, []int{bound})
+}
+
+// RunBounds explores every program with each preemption bound of bounds in
+// turn (iterative context bounding: e.g. 2, 3, then -1 = unbounded) and
+// records per program the largest bound that was completed, so that a
+// deadline during the deepest pass still leaves a precise coverage statement.
+func RunBounds(c *vx.Ctx, part string, progs []Program, bounds []int) {
+	if c.Replaying() {
+		runAll(c, part, progs, bounds[0], nil)
+		return
+	}
+	done := map[string]any{}
+	for _, b := range bounds {
+		if c.Expired() {
+			break
+		}
+		runAll(c, part, progs, b, done)
+	}
+	c.Note("preemption_bound_completed_per_program", done)
+}
+
+func runAll(c *vx.Ctx, part string, progs []Program, bound int, done map[string]any) {
 	if c.Replaying() {
 		var sc SchedCase
 		if !c.ReplayCase(part, &sc) {
@@ -40,11 +64,19 @@ func RunAll(c *vx.Ctx, part string, progs []Program, bound int) {
 		return
 	}
 	shard, shards := c.Shard()
-	for _, p := range progs {
+	for pi, p := range progs {
 		if c.Expired() {
 			return
 		}
-		st := Explore(p, Config{Bound: bound, Shard: shard, Shards: shards, Expired: c.Expired})
+		expired := c.Expired
+		if bound < 0 {
+			// the unbounded pass gets an equal share of the remaining budget
+			// per program, so that one large program cannot starve the rest
+			share := c.Remaining() / time.Duration(len(progs)-pi)
+			limit := time.Now().Add(share)
+			expired = func() bool { return time.Now().After(limit) || c.Expired() }
+		}
+		st := Explore(p, Config{Bound: bound, Shard: shard, Shards: shards, Expired: expired})
 		if st.HarnessErr != "" {
 			c.T.Fatalf("harness error in %s: %s", p.Name, st.HarnessErr)
 		}
@@ -58,10 +90,16 @@ func RunAll(c *vx.Ctx, part string, progs []Program, bound int) {
 			obs = append(obs, fmt.Sprintf("%s×%d", k, n))
 		}
 		sort.Strings(obs)
-		c.Note(p.Name, map[string]any{"executions": st.Executions, "max_points": st.MaxDepth, "deadlocks": st.Deadlocks,
+		c.Note(fmt.Sprintf("%s@bound=%d", p.Name, bound), map[string]any{"executions": st.Executions, "max_points": st.MaxDepth, "deadlocks": st.Deadlocks,
 			"distinct_terminal_outcomes": len(st.Observed), "complete": st.Complete, "preemption_bound": bound})
 		if !st.Complete {
 			c.Cap(fmt.Sprintf("%s: exploration with preemption bound %d not completed (deadline or horizon)", p.Name, bound))
+		} else if done != nil {
+			if bound < 0 {
+				done[p.Name] = "unbounded"
+			} else {
+				done[p.Name] = bound
+			}
 		}
 		if shard == 0 {
 			c.Sample(map[string]any{"program": p.Name, "outcomes": obs})
